@@ -53,13 +53,20 @@ def main(argv=None):
     if not workers:
         ncpu = os.cpu_count() or 1
         workers = min(16, ncpu) if args.tier == 'thorough' else min(6, ncpu)
+    # one scratch directory per run, inherited by the workers and removed by the parent
+    import shutil
+    import tempfile
+    run_tmp = tempfile.mkdtemp(prefix='taurex_verif_run_', dir=os.environ.get('VERIF_TMP') or None)
+    os.environ['VERIF_TMP'] = run_tmp
     ctx = core.Ctx(mod, args.tier, seed, workers, repo)
-    harness_err = None
     try:
-        mod.explore(ctx)
+        try:
+            mod.explore(ctx)
+        finally:
+            ctx.close()
+        return finish(ctx, mod, write_evidence=not args.no_evidence)
     finally:
-        ctx.close()
-    return finish(ctx, mod, write_evidence=not args.no_evidence)
+        shutil.rmtree(run_tmp, ignore_errors=True)
 
 
 def validate_json(schema, path):
